@@ -6,6 +6,9 @@ CONSTANTS
  Margin = 4
  Variants <- E_one
  NaiveMaxP = 0
+ NaiveVariants <- None
+ NbrMaxP = 0
+ NbrVariants <- None
  Mode = "elem"
  CheckArith = FALSE
  SortedBases = TRUE
